@@ -413,9 +413,62 @@ def _lower_for(pat, expr, loop_ann, body, n, ptypes, log):
         bind = 'let ( %s , %s ) = ( %s , %s ) ;' % (_txt(pats[0]), _txt(pats[1]), rhs[0], rhs[1])
     if enum:
         bind = 'let %s = %s ; ' % (_txt(idx_pat), iv) + bind
-    inner = toks_of(bind + ' %s += 1 ;' % iv, False)
+    snap = ''
+    for (b, mut_) in sources:
+        if mut_:
+            # ghost snapshot of a mutable source at the top of each iteration (spec only)
+            snap += 'let ghost __w%d = %s @ ; ' % (n, _txt(_paren(b)))
+    inner = toks_of(snap + bind + ' %s += 1 ;' % iv, False)
     # binding patterns such as `&x` for shared iterators are kept verbatim (`let &x = &s[i]`)
     return head + loop_ann + [T('p', '{')] + inner + body + [T('p', '}')]
+
+
+# ---------------------------------------------------------------------------------------
+# D8: a proof block placed after the tail expression of the function body
+
+def rule_d8(toks, log):
+    if not toks or not _is(toks[-1], '}'):
+        return toks
+    end = len(toks) - 1
+    a = end
+    while a > 0 and toks[a - 1][2]:
+        a -= 1
+    if a == end:
+        return toks          # no trailing annotation
+    # toks[a:end] is the trailing annotation; the tail expression ends at a-1
+    i = a - 1
+    if i < 0 or toks[i][2] or _is(toks[i], ';') or _is(toks[i], '{'):
+        return toks          # no tail expression (unit function): annotation is already in place
+    last = i
+    while i >= 0:
+        t = toks[i]
+        if t[2]:
+            break
+        if t[0] == 'p' and t[1] in (')', ']', '}'):
+            if t[1] == '}' and i != last:
+                # only `} else {` may continue an expression
+                if not (_is(toks[i + 1], 'else')):
+                    break
+            d = 0
+            while True:
+                tt = toks[i]
+                if tt[0] == 'p' and tt[1] in rtok.CLOSE:
+                    d += 1
+                elif tt[0] == 'p' and tt[1] in rtok.OPEN:
+                    d -= 1
+                    if d == 0:
+                        break
+                i -= 1
+            i -= 1
+            continue
+        if t[0] == 'p' and t[1] in (';', '{'):
+            break
+        i -= 1
+    start = i + 1
+    expr = toks[start:a]
+    log.append('D8 tail expression `%s` bound to `ret` before the trailing proof block' % _txt(expr)[:80])
+    return toks[:start] + toks_of('let ret =', False) + expr + [T('p', ';')] + toks[a:end] + \
+        [T('id', 'ret'), T('p', '}')]
 
 
 # ---------------------------------------------------------------------------------------
@@ -430,4 +483,5 @@ def lower(toks, marks, opts=None):
     ts = rule_d3(ts, log, drop=opts.get('drop_asserts', ()))
     ts = rule_d7(ts, log)
     ts = rule_d1(ts, log)
+    ts = rule_d8(ts, log)
     return [(k, t) for k, t, _ in ts], log
